@@ -89,7 +89,9 @@ func decodeString(f reflect.Type, t reflect.Type, data any) (any, error) {
 	var result any
 	var decoder StringDecoder
 
-	if t.Implements(typeStringDecoder) {
+	// (only a pointer type has an element type to allocate: a non-pointer type that implements the interface with value
+	// receivers is served by the second branch through its pointer type)
+	if t.Kind() == reflect.Ptr && t.Implements(typeStringDecoder) {
 		result = reflect.New(t.Elem()).Interface()
 		decoder = result.(StringDecoder)
 	} else if reflect.PtrTo(t).Implements(typeStringDecoder) {
